@@ -502,6 +502,12 @@ class Evaluator:
             verd = lean_check([f"{pid}\t{hexes[i]}\t{impl[i]}" for i in idx])
             for i, vd in zip(idx, verd):
                 res[i] = (parse_verdict(vd), {"variant": vt[0], "dump": impl[i]})
+            if k == "single":
+                # the property speaks of the result for *every* source: an input on which this build gives no result
+                # (panic, or the iteration budget of the hook runs out) is an input on which it fails
+                for i, d in enumerate(impl):
+                    if res[i] is None and outcome(d) in ("panic", "budget"):
+                        res[i] = (["no-result-" + outcome(d)], {"variant": vt[0], "dump": d})
             if pid == "C04" and idx:
                 # how often the hypothesis of the pure theorem `C04_of_lineWF` holds of the implementation's buffers
                 wf = lean_check([f"LINEWF\t{hexes[i]}\t{impl[i]}" for i in idx])
